@@ -67,11 +67,20 @@ def run_witness(unit, seed=0, only=None):
                     fails.append(json.loads(line[k + len("WITNESS-FAIL "):]))
                 except Exception:
                     fails.append({"raw": line[k:]})
-        m = re.search(r"WITNESS-DONE cases=(\d+)", out)
+        m = re.search(r"WITNESS-DONE cases=(\d+)(?: distinct=(\d+))?", out)
         cases = int(m.group(1)) if m else 0
+        distinct = int(m.group(2)) if m and m.group(2) else None
+        samples = []
+        for line in out.split("\n"):
+            k = line.find("WITNESS-SAMPLE ")
+            if k >= 0:
+                try:
+                    samples.append(json.loads(line[k + len("WITNESS-SAMPLE "):]))
+                except Exception:
+                    samples.append({"raw": line[k + 15:][:400]})
         if cases == 0 and not fails:
             raise R.Infra(f"{unit['name']}: witness search ran no case:\n{out[-1500:]}")
-        return {"fails": fails, "cases": cases, "cmd": "(in scratch copy) " + " ".join(cmd)}
+        return {"fails": fails, "cases": cases, "distinct": distinct, "samples": samples, "cmd": "(in scratch copy) " + " ".join(cmd)}
     finally:
         shutil.rmtree(dst, ignore_errors=True)
         fcntl.flock(lk, fcntl.LOCK_UN)
